@@ -54,6 +54,8 @@ def scenario(big: bool = False) -> Any:
         "msgs": st.lists(msg, min_size=1, max_size=7 if big else 4),
         "fail_saves": st.sets(st.integers(0, 3), max_size=2),
         "fail_kicks": st.sets(st.integers(0, 3), max_size=2),
+        # what the broker's kick() raises when a send fails: anything, incl. taskiq's own broker errors and a third-party subclass
+        "kick_exc": st.sampled_from(["RuntimeError", "RuntimeError", "ConnectionError", "KeyError", "BrokerError", "QueueUnavailableError", "SendTaskError", "UnknownTaskError", "TimeoutError"]),
         "concurrent_send": st.booleans(),
         "redirect": st.sampled_from([False, False, True]),
         "dup_mw": st.one_of(st.none(), st.none(), st.integers(0, 2)),
@@ -81,6 +83,7 @@ def run_case(sc: Dict[str, Any]) -> Outcome:
     b = wh.ScriptedBroker(tr)
     b.ends = True
     b.kick_fail = set(sc["fail_kicks"])
+    b.kick_exc = sc.get("kick_exc", "RuntimeError")
     rb = wh.RecordingBackend(tr, sc["fail_saves"], 0.0)
     b.result_backend = rb
     wh.register_timing_tasks(b, tr, sc)
